@@ -215,7 +215,7 @@ class ReadDecoder:
             return "".join(map(chr, buf20))
 
         if token == 254:
-            size31 = self.readInt31()
+            size31 = self.readInt31(data)
             buf31 = self.readArray(size31, data)
             return "".join(map(chr, buf31))
 
